@@ -402,6 +402,12 @@ func (c *Ctx) c09Confirm(b BK) {
 			switch op {
 			case "Read":
 				uses = len(p.Ret) == 2 && !isConstNamed(p.Ret[1], "ErrNotFound")
+				// a read that removes what it found (lazy clean-up) uses the entry as well
+				for _, ev := range p.Events {
+					if ev.Kind == pw.EvMapDelete && isShardData(ev) {
+						uses = true
+					}
+				}
 			case "Load":
 				if len(p.Ret) == 2 {
 					if t, known := p.Truth(p.Ret[1]); !known || t {
